@@ -763,9 +763,24 @@ fn main() {
         let sub = by_name(&["empty", "a1", "a1-exec", "a-symlink", "d-file", "d-dir", "d-symlink", "conflict-content", "conflict-in-dir", "conflict-file-dir"]);
         plans.push((vec![Cfg { eol: "none", exec: "respect", style: "diff" }], 3, vec![true], sub));
     } else {
-        plans.push((all_configs.clone(), 3, vec![true, false], all_trees.clone()));
-        plans.push((vec![Cfg { eol: "input-output", exec: "respect", style: "diff" }], 4, vec![true], all_trees.clone()));
+        plans.push((all_configs.clone(), 2, vec![true, false], all_trees.clone()));
+        plans.push((configs_k2[..6].to_vec(), 3, vec![true, false], all_trees.clone()));
+        plans.push((
+            vec![
+                Cfg { eol: "none", exec: "respect", style: "snapshot" },
+                Cfg { eol: "none", exec: "respect", style: "git" },
+                Cfg { eol: "input-output", exec: "respect", style: "snapshot" },
+                Cfg { eol: "input-output", exec: "respect", style: "git" },
+            ],
+            3,
+            vec![true],
+            all_trees.clone(),
+        ));
+        let sub = by_name(&["empty", "a1", "a1-exec", "a-symlink", "d-file", "d-dir", "d-symlink", "conflict-content", "conflict-in-dir", "conflict-file-dir"]);
+        plans.push((vec![Cfg { eol: "input-output", exec: "respect", style: "diff" }], 4, vec![true], sub));
     }
+    let wall_cap_s = 1500.0;
+    let mut capped = false;
 
     let tally = Tally::default();
     let samples = Samples::new(6);
@@ -775,6 +790,10 @@ fn main() {
     for (configs, k, variants, trees) in &plans {
         let mut count = 0u64;
         for cfg in configs {
+            if ctx.elapsed_s() > wall_cap_s {
+                capped = true;
+                break;
+            }
             // fresh checkouts of every tree (also the length-1 sequences)
             let fresh_results: Vec<(usize, Result<Outcome, Failure>)> =
                 trees.par_iter().map(|&i| (i, run_sequence(&alphabet, cfg, &[i], true, None, Some(&tally)))).collect();
@@ -838,6 +857,7 @@ fn main() {
             "trees": trees.iter().map(|i| alphabet[*i].name).collect::<Vec<_>>(),
             "variants_snapshots_after_every_checkout": variants,
             "sequences": count,
+            "cut_short_by_wall_clock_cap": capped,
         }));
     }
 
@@ -885,6 +905,7 @@ fn main() {
     extra.insert("tree_alphabet".into(), json!(alphabet.iter().map(|s| s.name).collect::<Vec<_>>()));
     extra.insert("oracle_counters".into(), counters);
     extra.insert("sequences_enumerated".into(), json!(total_sequences));
+    extra.insert("wall_clock_cap_s".into(), json!(wall_cap_s));
     ctx.finish(Coverage {
         evaluations: t.checkouts.get(),
         distinct_nontrivial: t.checkouts_changing_disk.get(),
@@ -892,7 +913,7 @@ fn main() {
                non-trivial = checkouts after which the disk differs from the disk before"
             .into(),
         samples: samples.take(),
-        exhaustive: true,
+        exhaustive: !capped,
         states: Some(n_states),
         transitions: Some(t.checkouts.get()),
         traces_validated_against_impl: Some(t.checkouts.get()),
